@@ -296,3 +296,14 @@ VALUE_RULE = ("K-value cases: random describing functions over the C01 fragment 
 VALUE_ASSUME = ["node functions are pure; Herbrand-term values with declared truthiness", "the node table (references, key paths, flags) is read from the DAG the implementation built (layering); that it is what the describing function denotes is checked against the plain-Python reference"]
 for _p in ("C01", "C10", "C20"):
     REGISTRY[_p] = dict(engines=[engine_kvalue.run], rule=VALUE_RULE, assumptions=VALUE_ASSUME)
+
+from . import engine_khist  # noqa: E402
+
+HIST_RULE = ("K-hist cases: random DAGs with setup / debug nodes and defaulted parameters; random histories (2-7 operations) over call(args), setup(selection), executor(target / root / cache_deps_of, cache_in, from_cache, re-run), "
+             "failing call / failing executor run followed by a re-run, deepcopy; per operation the executed node set is compared with History.v evaluated in coqc, entry counts per (instance, setup node), cache file key sets, "
+             "and the last call is compared with the same call on a freshly built DAG; distinct = hash of the case; non-trivial = at least 3 operations with setup nodes or an executor")
+HIST_ASSUME = ["setup node functions are pure (their stored value equals what a re-computation would give)", "pickle round-trips the results faithfully", "graphs / node table read from the DAG the implementation built (layering)"]
+for _p in ("C11", "C15", "C18"):
+    REGISTRY[_p] = dict(engines=[engine_khist.run], rule=HIST_RULE, assumptions=HIST_ASSUME)
+REGISTRY["C03"]["engines"] = [engine_ksched, engine_khist.run]
+REGISTRY["C03"]["rule"] = SCHED_RULE + " || " + HIST_RULE
